@@ -52,12 +52,14 @@ type rtr struct {
 	f          *fox.Router
 	nomethod   bool
 	autoopt    bool
-	global     string // "", "ignore", "redirect"
+	global     string // rendering of the router-wide trailing-slash options, in the order given
+	gIgn, gRed bool   // router-wide mode in force (folded from the options given)
 	routes     []routeID
 	byPtr      map[*fox.Route]routeID
 	registered map[string]bool
 	hosts      []string
 	sig        string
+	optsig     []string
 }
 
 func record(r *rtr, c fox.Context, kind, m, p string) {
@@ -99,31 +101,159 @@ var paramValues = []string{
 }
 var queries = []string{"", "", "", "q=1", "a=b&c=%20d", "x=a?b", "x=a/b", "x=%C3%A9", "x=\xc3\xa9", "a:b", "?", "a+b=c"}
 
-func newRouter(rnd *hx.Rand, st *hx.Stats) *rtr {
-	r := &rtr{byPtr: map[*fox.Route]routeID{}, registered: map[string]bool{}}
-	r.nomethod, r.autoopt = rnd.Bool(), rnd.Bool()
-	r.global = hx.Pick(rnd, []string{"", "", "ignore", "redirect", "redirect"})
+// ---------- trailing-slash options: what was GIVEN, folded by the documented rule ----------
+//
+// The flags the model and the specification are fed never come from the Route's accessors: they are
+// computed here from the options passed to fox.New / Handle (options.go doc comments): options apply in
+// order, the last one wins; enabling one mode disables the other; a route starts from the router-wide
+// mode in force when it is created.
+
+type tsOpt struct {
+	redirect bool // WithRedirectTrailingSlash, else WithIgnoreTrailingSlash
+	enable   bool
+}
+
+func (o tsOpt) String() string {
+	if o.redirect {
+		return fmt.Sprintf("redirect(%v)", o.enable)
+	}
+	return fmt.Sprintf("ignore(%v)", o.enable)
+}
+
+func tsString(ops []tsOpt) string {
+	var ss []string
+	for _, o := range ops {
+		ss = append(ss, o.String())
+	}
+	return strings.Join(ss, ",")
+}
+
+func foldTS(ign, red bool, ops []tsOpt) (bool, bool) {
+	for _, o := range ops {
+		if o.redirect {
+			red = o.enable
+			if o.enable {
+				ign = false
+			}
+		} else {
+			ign = o.enable
+			if o.enable {
+				red = false
+			}
+		}
+	}
+	return ign, red
+}
+
+func tsFox(o tsOpt) fox.Option {
+	if o.redirect {
+		return fox.WithRedirectTrailingSlash(o.enable)
+	}
+	return fox.WithIgnoreTrailingSlash(o.enable)
+}
+
+var allTsOpts = []tsOpt{{false, true}, {false, false}, {true, true}, {true, false}}
+
+// every option list of length <= 2, in every order
+func allTsLists() [][]tsOpt {
+	out := [][]tsOpt{nil}
+	for _, a := range allTsOpts {
+		out = append(out, []tsOpt{a})
+	}
+	for _, a := range allTsOpts {
+		for _, b := range allTsOpts {
+			out = append(out, []tsOpt{a, b})
+		}
+	}
+	return out
+}
+
+func buildRouter(nomethod, autoopt bool, gops []tsOpt) *rtr {
+	r := &rtr{byPtr: map[*fox.Route]routeID{}, registered: map[string]bool{}, nomethod: nomethod, autoopt: autoopt}
+	r.global = tsString(gops)
+	r.gIgn, r.gRed = foldTS(false, false, gops)
 	mw := func(kind string) fox.MiddlewareFunc {
 		return func(next fox.HandlerFunc) fox.HandlerFunc {
 			return func(c fox.Context) { record(r, c, kind, "", ""); next(c) }
 		}
 	}
 	opts := []fox.GlobalOption{
-		fox.WithNoMethod(r.nomethod), fox.WithAutoOptions(r.autoopt),
+		fox.WithNoMethod(nomethod), fox.WithAutoOptions(autoopt),
 		fox.WithMiddlewareFor(fox.NoRouteHandler, mw("noroute")),
 		fox.WithMiddlewareFor(fox.NoMethodHandler, mw("nomethod")),
 		fox.WithMiddlewareFor(fox.OptionsHandler, mw("options")),
 		fox.WithMiddlewareFor(fox.RedirectHandler, mw("redirect")),
 	}
-	switch r.global {
-	case "ignore":
-		opts = append(opts, fox.WithIgnoreTrailingSlash(true))
-	case "redirect":
-		opts = append(opts, fox.WithRedirectTrailingSlash(true))
+	for _, o := range gops {
+		opts = append(opts, tsFox(o))
 	}
 	f, err := fox.New(opts...)
 	hx.Fatal(err)
 	r.f = f
+	return r
+}
+
+// handle registers a route; its identity carries the flags that FOLLOW FROM THE OPTIONS GIVEN
+func (r *rtr) handle(st *hx.Stats, m, p string, rops []tsOpt) error {
+	var ro []fox.RouteOption
+	for _, o := range rops {
+		ro = append(ro, tsFox(o))
+	}
+	rte, err := r.f.Handle(m, p, func(c fox.Context) {
+		record(r, c, "route", m, p)
+		c.Writer().WriteHeader(http.StatusOK)
+	}, ro...)
+	if err != nil {
+		return err
+	}
+	ign, red := foldTS(r.gIgn, r.gRed, rops)
+	if ign != rte.IgnoreTrailingSlashEnabled() || red != rte.RedirectTrailingSlashEnabled() {
+		st.Count("options:route-accessors-disagree-with-the-options-given")
+	}
+	id := routeID{m, p, ign, red}
+	r.byPtr[rte] = id
+	r.routes = append(r.routes, id)
+	r.registered[m] = true
+	if i := strings.IndexByte(p, '/'); i > 0 {
+		r.hosts = append(r.hosts, p[:i])
+	}
+	r.optsig = append(r.optsig, fmt.Sprintf("%s %s [%s]", m, p, tsString(rops)))
+	return nil
+}
+
+func (r *rtr) makeSig() {
+	var sb strings.Builder
+	fmt.Fprintf(&sb, "nomethod=%v autooptions=%v global=[%s] routes=[", r.nomethod, r.autoopt, r.global)
+	for i, id := range r.routes {
+		if i > 0 {
+			sb.WriteString(" ")
+		}
+		fmt.Fprintf(&sb, "%s %s", id.method, id.pattern)
+		if id.ign {
+			sb.WriteString(" (ignore-ts)")
+		}
+		if id.red {
+			sb.WriteString(" (redirect-ts)")
+		}
+		sb.WriteString(";")
+	}
+	sb.WriteString("] options-given=[" + strings.Join(r.optsig, "; ") + "]")
+	r.sig = sb.String()
+}
+
+func newRouter(rnd *hx.Rand, st *hx.Stats) *rtr {
+	var gops []tsOpt
+	switch rnd.Intn(10) {
+	case 0, 1, 2:
+	case 3, 4:
+		gops = []tsOpt{{false, true}}
+	case 5, 6:
+		gops = []tsOpt{{true, true}}
+	default:
+		gops = hx.Pick(rnd, allTsLists())
+	}
+	r := buildRouter(rnd.Bool(), rnd.Bool(), gops)
+	f := r.f
 
 	// 2-5 methods, standard and custom
 	nm := rnd.Range(2, 5)
@@ -141,7 +271,7 @@ func newRouter(rnd *hx.Rand, st *hx.Stats) *rtr {
 			methods = append(methods, m)
 		}
 	}
-	withHosts := rnd.Pct(15)
+	withHosts := rnd.Pct(30)
 	for _, m := range methods {
 		nr := rnd.Range(1, 6)
 		if rnd.Pct(10) {
@@ -152,30 +282,17 @@ func newRouter(rnd *hx.Rand, st *hx.Stats) *rtr {
 			if withHosts && rnd.Pct(40) {
 				p = hx.Pick(rnd, hostPatterns)
 			}
-			var ro []fox.RouteOption
+			var rops []tsOpt
 			switch rnd.Intn(10) {
 			case 0, 1:
-				ro = append(ro, fox.WithIgnoreTrailingSlash(true))
+				rops = []tsOpt{{false, true}}
 			case 2, 3:
-				ro = append(ro, fox.WithRedirectTrailingSlash(true))
-			case 4:
-				ro = append(ro, fox.WithRedirectTrailingSlash(false), fox.WithIgnoreTrailingSlash(false))
+				rops = []tsOpt{{true, true}}
+			case 4, 5:
+				rops = hx.Pick(rnd, allTsLists())
 			}
-			mm, pp := m, p
-			rte, err := f.Handle(m, p, func(c fox.Context) {
-				record(r, c, "route", mm, pp)
-				c.Writer().WriteHeader(http.StatusOK)
-			}, ro...)
-			if err != nil {
+			if err := r.handle(st, m, p, rops); err != nil {
 				st.Count("register:rejected")
-				continue
-			}
-			id := routeID{m, p, rte.IgnoreTrailingSlashEnabled(), rte.RedirectTrailingSlashEnabled()}
-			r.byPtr[rte] = id
-			r.routes = append(r.routes, id)
-			r.registered[m] = true
-			if i := strings.IndexByte(p, '/'); i > 0 {
-				r.hosts = append(r.hosts, p[:i])
 			}
 		}
 	}
@@ -200,23 +317,7 @@ func newRouter(rnd *hx.Rand, st *hx.Stats) *rtr {
 		}
 		st.Count("router:method-emptied")
 	}
-	var sb strings.Builder
-	fmt.Fprintf(&sb, "nomethod=%v autooptions=%v global=%q routes=[", r.nomethod, r.autoopt, r.global)
-	for i, id := range r.routes {
-		if i > 0 {
-			sb.WriteString(" ")
-		}
-		fmt.Fprintf(&sb, "%s %s", id.method, id.pattern)
-		if id.ign {
-			sb.WriteString(" (ignore-ts)")
-		}
-		if id.red {
-			sb.WriteString(" (redirect-ts)")
-		}
-		sb.WriteString(";")
-	}
-	sb.WriteString("]")
-	r.sig = sb.String()
+	r.makeSig()
 	return r
 }
 
@@ -324,8 +425,23 @@ func genRequest(rnd *hx.Rand, r *rtr, st *hx.Stats) *reqCase {
 	if len(r.hosts) > 0 && rnd.Pct(70) {
 		host = strings.NewReplacer("{sub}", "foo").Replace(hx.Pick(rnd, r.hosts))
 	}
-	if rnd.Pct(5) {
+	// decorations of the Host: port, trailing dot, and the doubly-decorated forms of which only one
+	// layer may be removed (so they do NOT name the registered hostname)
+	switch k := rnd.Intn(100); {
+	case k < 8:
 		host += ":8080"
+	case k < 14:
+		host += "."
+	case k < 18:
+		host += ".:8080"
+	case k < 24:
+		host += ".."
+	case k < 30:
+		host += "..:8080"
+	case k < 36:
+		host = "[" + host + ":80]:80"
+	case k < 39:
+		host += ".:80."
 	}
 	if rnd.Pct(8) {
 		// hand-built request: URL.Path and URL.RawPath chosen independently
@@ -628,64 +744,79 @@ func corpus(st *hx.Stats, add func(r *rtr, rc *reqCase, tag string)) {
 		global            string
 		routes            []rdef
 		method, target    string
+		host              string
 	}
 	cases := []c{
-		{false, false, "redirect", []rdef{{"GET", "/{x}/", ""}}, "GET", "/https:evil.com"},
-		{false, false, "redirect", []rdef{{"GET", "/{x}/", ""}}, "GET", "/a%3Fb?q=1"},
-		{false, false, "redirect", []rdef{{"GET", "/{x}/", ""}}, "GET", "/a%23b"},
-		{false, false, "redirect", []rdef{{"GET", "/{x}/", ""}}, "GET", "/a%25b"},
-		{false, false, "redirect", []rdef{{"POST", "/{x}/", ""}}, "POST", "/a%20b"},
-		{false, false, "redirect", []rdef{{"POST", "/a/{x}", ""}}, "POST", "/a/c:d/?x=1"},
-		{false, false, "redirect", []rdef{{"GET", "/foo/{bar}/", ""}}, "GET", "/foo/bar%2Fbaz"},
-		{false, false, "redirect", []rdef{{"GET", "/foo/bar/", ""}}, "GET", "/foo/bar?a=b"},
-		{true, true, "", []rdef{{"GET", "/a", ""}, {"POST", "/a/", "ignore"}, {"PUT", "/a/", "redirect"}, {"FOO", "/a", ""}}, "DELETE", "/a"},
-		{true, true, "", []rdef{{"GET", "/a", ""}, {"POST", "/a/", "ignore"}, {"PUT", "/a/", "redirect"}, {"FOO", "/a", ""}}, "OPTIONS", "/a"},
-		{true, true, "", []rdef{{"GET", "/a", ""}, {"FOO", "/b", ""}, {"OPTIONS", "/c", ""}}, "OPTIONS", "*"},
-		{true, false, "", []rdef{{"GET", "/{x}/y", ""}, {"POST", "/{x}/z", ""}}, "GET", "/v/z"},
-		{false, true, "ignore", []rdef{{"CONNECT", "/a/", ""}, {"GET", "/a/", ""}}, "CONNECT", "/a"},
-		{true, false, "redirect", []rdef{{"GET", "/{x}/{y}/", ""}, {"POST", "/{x}/{y}", ""}}, "GET", "/./a"},
-		{false, false, "redirect", []rdef{{"GET", "/{x}/{y}/", ""}}, "GET", "/a//b"},
+		{false, false, "redirect", []rdef{{"GET", "/{x}/", ""}}, "GET", "/https:evil.com", ""},
+		{false, false, "redirect", []rdef{{"GET", "/{x}/", ""}}, "GET", "/a%3Fb?q=1", ""},
+		{false, false, "redirect", []rdef{{"GET", "/{x}/", ""}}, "GET", "/a%23b", ""},
+		{false, false, "redirect", []rdef{{"GET", "/{x}/", ""}}, "GET", "/a%25b", ""},
+		{false, false, "redirect", []rdef{{"POST", "/{x}/", ""}}, "POST", "/a%20b", ""},
+		{false, false, "redirect", []rdef{{"POST", "/a/{x}", ""}}, "POST", "/a/c:d/?x=1", ""},
+		{false, false, "redirect", []rdef{{"GET", "/foo/{bar}/", ""}}, "GET", "/foo/bar%2Fbaz", ""},
+		{false, false, "redirect", []rdef{{"GET", "/foo/bar/", ""}}, "GET", "/foo/bar?a=b", ""},
+		{true, true, "", []rdef{{"GET", "/a", ""}, {"POST", "/a/", "ignore"}, {"PUT", "/a/", "redirect"}, {"FOO", "/a", ""}}, "DELETE", "/a", ""},
+		{true, true, "", []rdef{{"GET", "/a", ""}, {"POST", "/a/", "ignore"}, {"PUT", "/a/", "redirect"}, {"FOO", "/a", ""}}, "OPTIONS", "/a", ""},
+		{true, true, "", []rdef{{"GET", "/a", ""}, {"FOO", "/b", ""}, {"OPTIONS", "/c", ""}}, "OPTIONS", "*", ""},
+		{true, false, "", []rdef{{"GET", "/{x}/y", ""}, {"POST", "/{x}/z", ""}}, "GET", "/v/z", ""},
+		{false, true, "ignore", []rdef{{"CONNECT", "/a/", ""}, {"GET", "/a/", ""}}, "CONNECT", "/a", ""},
+		{true, false, "redirect", []rdef{{"GET", "/{x}/{y}/", ""}, {"POST", "/{x}/{y}", ""}}, "GET", "/./a", ""},
+		{false, false, "redirect", []rdef{{"GET", "/{x}/{y}/", ""}}, "GET", "/a//b", ""},
+		// a Host that merely extends a registered hostname: only ONE port and ONE trailing dot are removed
+		{true, true, "", []rdef{{"POST", "ex.com/foo", ""}}, "GET", "/foo", "ex.com.."},
+		{true, true, "", []rdef{{"POST", "ex.com/foo", ""}}, "GET", "/foo", "ex.com..:8080"},
+		{true, true, "", []rdef{{"POST", "ex.com/foo", ""}}, "GET", "/foo", "[ex.com:80]:80"},
+		{true, true, "", []rdef{{"POST", "ex.com/foo", ""}}, "OPTIONS", "/foo", "ex.com.."},
+		{true, true, "", []rdef{{"POST", "ex.com/foo", ""}}, "OPTIONS", "/foo", "[ex.com:80]:80"},
+		{true, true, "", []rdef{{"POST", "ex.com/foo", ""}}, "GET", "/foo", "ex.com.:8080"},
+	}
+	named := func(o string) []tsOpt {
+		switch o {
+		case "ignore":
+			return []tsOpt{{false, true}}
+		case "redirect":
+			return []tsOpt{{true, true}}
+		}
+		return nil
 	}
 	for _, cs := range cases {
-		r := &rtr{byPtr: map[*fox.Route]routeID{}, registered: map[string]bool{}, nomethod: cs.nomethod, autoopt: cs.autoopt, global: cs.global}
-		mw := func(kind string) fox.MiddlewareFunc {
-			return func(next fox.HandlerFunc) fox.HandlerFunc {
-				return func(c fox.Context) { record(r, c, kind, "", ""); next(c) }
-			}
-		}
-		opts := []fox.GlobalOption{fox.WithNoMethod(cs.nomethod), fox.WithAutoOptions(cs.autoopt),
-			fox.WithMiddlewareFor(fox.NoRouteHandler, mw("noroute")), fox.WithMiddlewareFor(fox.NoMethodHandler, mw("nomethod")),
-			fox.WithMiddlewareFor(fox.OptionsHandler, mw("options")), fox.WithMiddlewareFor(fox.RedirectHandler, mw("redirect"))}
-		if cs.global == "redirect" {
-			opts = append(opts, fox.WithRedirectTrailingSlash(true))
-		} else if cs.global == "ignore" {
-			opts = append(opts, fox.WithIgnoreTrailingSlash(true))
-		}
-		f, err := fox.New(opts...)
-		hx.Fatal(err)
-		r.f = f
-		var sig []string
+		r := buildRouter(cs.nomethod, cs.autoopt, named(cs.global))
 		for _, d := range cs.routes {
-			var ro []fox.RouteOption
-			if d.opt == "ignore" {
-				ro = append(ro, fox.WithIgnoreTrailingSlash(true))
-			} else if d.opt == "redirect" {
-				ro = append(ro, fox.WithRedirectTrailingSlash(true))
-			}
-			mm, pp := d.m, d.p
-			rte, err := f.Handle(d.m, d.p, func(c fox.Context) { record(r, c, "route", mm, pp); c.Writer().WriteHeader(200) }, ro...)
-			hx.Fatal(err)
-			id := routeID{d.m, d.p, rte.IgnoreTrailingSlashEnabled(), rte.RedirectTrailingSlashEnabled()}
-			r.byPtr[rte] = id
-			r.routes = append(r.routes, id)
-			r.registered[d.m] = true
-			sig = append(sig, d.m+" "+d.p+" "+d.opt+";")
+			hx.Fatal(r.handle(st, d.m, d.p, named(d.opt)))
 		}
-		r.sig = fmt.Sprintf("nomethod=%v autooptions=%v global=%q routes=[%s]", cs.nomethod, cs.autoopt, cs.global, strings.Join(sig, " "))
-		rq, err := parseWire(cs.method, cs.target, "a.org")
+		r.makeSig()
+		host := cs.host
+		if host == "" {
+			host = "a.org"
+		}
+		rq, err := parseWire(cs.method, cs.target, host)
 		hx.Fatal(err)
 		wire, _, _ := strings.Cut(cs.target, "?")
 		add(r, &reqCase{req: rq, wire: wire, hasW: true, origin: "corpus"}, "corpus")
+	}
+
+	// every router-wide option list of length <= 1 (and the two-option lists that flip the mode) x every
+	// per-route option list of length <= 2, in every order: the route's flags must be those that follow
+	// from the options given, visible in how a slash-adjusted request is answered
+	globals := [][]tsOpt{nil}
+	for _, o := range allTsOpts {
+		globals = append(globals, []tsOpt{o})
+	}
+	globals = append(globals, []tsOpt{{false, true}, {true, true}}, []tsOpt{{true, true}, {false, true}},
+		[]tsOpt{{false, true}, {false, false}}, []tsOpt{{true, true}, {true, false}})
+	for _, g := range globals {
+		for _, ro := range allTsLists() {
+			r := buildRouter(true, true, g)
+			hx.Fatal(r.handle(st, "GET", "/a/{x}/", ro))
+			hx.Fatal(r.handle(st, "POST", "/b/{x}", ro))
+			r.makeSig()
+			for _, t := range [][2]string{{"GET", "/a/v?a=b"}, {"POST", "/b/v/"}} {
+				rq, err := parseWire(t[0], t[1], "a.org")
+				hx.Fatal(err)
+				wire, _, _ := strings.Cut(t[1], "?")
+				add(r, &reqCase{req: rq, wire: wire, hasW: true, origin: "corpus-options"}, "corpus-options")
+			}
+		}
 	}
 }
 
